@@ -48,9 +48,12 @@ KfC04(c) == IF c.inline.out = "ok" /\ c.param.out = "ok" /\ c.param.read.pg_ok
                /\ KF!KF_C03_DecimalRounding(c.ref, c.inline.read.ast)
                /\ Q!SameAstTol(Q!Subst(c.param.read.ast, c.param.params), c.inline.read.ast, 5000)
             THEN "C04-inline-decimal-rounding" ELSE "none"
+KfNumField(c) == IF c.param.read.pg_ok /\ KF!KF_C04_NumericFieldRange(c.param.read.ast, c.param.params, c.param.read.nplace)
+                 THEN "C04-numeric-field-range" ELSE "none"
 C04adv(c) ==
   IF c.inline.out # "ok" THEN <<>>
   ELSE IF c.param.out # "ok" THEN <<Fail("C04", c, "ToPostgres succeeds but ToParameterizedPostgres does not", "none")>>
+  ELSE IF KfNumField(c) # "none" THEN <<Fail("C04", c, "placeholders and parameters do not correspond one to one", KfNumField(c))>>
   ELSE (IF c.param.read.pg_ok /\ c.param.read.nplace = Len(c.param.params) /\ Q!ParamsOf(c.param.read.ast) = [i \in 1..Len(c.param.params) |-> i]
         THEN <<>> ELSE <<Fail("C04", c, "placeholders and parameters do not correspond one to one", "none")>>)
     \o (IF c.param.read.pg_ok /\ c.inline.read.pg_ok
